@@ -169,6 +169,10 @@ func checkC04(p *core.Program, r *core.Report) {
 	r.Rule("R9", "an XObject without a default returns itself from Default(): every call of XObject.Default() (outside hasDefault) is controlled by the true edge of hasDefault() on the same object, or listed — an unguarded conversion `ToX(env, obj.Default())` recurses on the same object until the stack overflows")
 	c04R9(p, r)
 
+	// ---------- R11 the template scanner cannot stall
+	r.Rule("R11", "the scanner's two readers of `@x` agree: the tests of the character after an `@` under which scanBody stops in front of that `@` (pushes it back and ends the body token) are exactly the tests under which Scan, finding that `@`, hands over to a reader other than scanBody — if scanBody stops for a character Scan does not dispatch on, Scan hands the same input back to scanBody, which returns an empty body without consuming anything, for ever (a hang, not an error value)")
+	c04R11(p, r)
+
 	// ---------- R10 a nil pointer inside an interface is not a nil interface
 	r.Rule("R10", "no nil pointer is stored in an interface: a pointer that is nil on some path (a `var p *T` filled in on one branch only) is not converted to an interface value — the interface then compares unequal to nil, the `x == nil` guard at its consumers passes, and the method call on it dereferences nil (a panic, not an error value)")
 	c04R10(p, r)
@@ -1287,4 +1291,88 @@ func c04ConsumersReflectNil(mi *ssa.MakeInterface) bool {
 		}
 	}
 	return true
+}
+
+// ---------------------------------------------------------------------------------------------- R11
+
+func c04R11(p *core.Program, r *core.Report) {
+	scan := p.Method("excellent", "xscanner", "Scan")
+	body := p.Method("excellent", "xscanner", "scanBody")
+	if scan == nil || body == nil {
+		r.Errorf("xscanner.Scan / scanBody not found")
+		return
+	}
+	// a test of one rune: `x == 'c'` or pred(x) with pred a func(rune) bool of the package
+	testOf := func(cond ssa.Value) string {
+		switch c := cond.(type) {
+		case *ssa.BinOp:
+			if c.Op == token.EQL {
+				if k, ok := core.ConstInt(c.Y); ok {
+					return fmt.Sprintf("== %q", rune(k))
+				}
+				if k, ok := core.ConstInt(c.X); ok {
+					return fmt.Sprintf("== %q", rune(k))
+				}
+			}
+		case *ssa.Call:
+			if g := c.Call.StaticCallee(); g != nil && len(c.Call.Args) == 1 && core.FuncPkgPath(g) == core.FuncPkgPath(scan) {
+				if bt, ok := c.Call.Args[0].Type().Underlying().(*types.Basic); ok && bt.Kind() == types.Int32 {
+					return g.Name() + "(…)"
+				}
+			}
+		}
+		return ""
+	}
+	callsIn := func(b *ssa.BasicBlock, pred func(c *ssa.CallCommon) bool) bool {
+		for _, in := range b.Instrs {
+			if ci, ok := in.(ssa.CallInstruction); ok && pred(ci.Common()) {
+				return true
+			}
+		}
+		return false
+	}
+	unreadsAt := func(c *ssa.CallCommon) bool {
+		g := c.StaticCallee()
+		if g == nil || g.Name() != "unread" || len(c.Args) == 0 {
+			return false
+		}
+		k, ok := core.ConstInt(c.Args[len(c.Args)-1])
+		return ok && k == '@'
+	}
+	stops, dispatches := map[string]bool{}, map[string]bool{}
+	for _, fn := range []*ssa.Function{body, scan} {
+		core.EachInstr(fn, false, func(_ *ssa.Function, in ssa.Instruction) {
+			iff, ok := in.(*ssa.If)
+			if !ok {
+				return
+			}
+			t := testOf(iff.Cond)
+			if t == "" {
+				return
+			}
+			target := iff.Block().Succs[0]
+			if fn == body {
+				if callsIn(target, unreadsAt) {
+					stops[t] = true
+				}
+				return
+			}
+			// in Scan: the arm hands over to another reader of the scanner (and not back to scanBody)
+			other := callsIn(target, func(c *ssa.CallCommon) bool {
+				g := c.StaticCallee()
+				return g != nil && g != body && g != scan && recvNamed(g) != nil && recvNamed(g) == recvNamed(scan) && strings.HasPrefix(g.Name(), "scan")
+			})
+			if other && !callsIn(target, func(c *ssa.CallCommon) bool { return c.StaticCallee() == body }) {
+				dispatches[t] = true
+			}
+		})
+	}
+	r.Count("scanner_stop_tests", len(stops))
+	r.Count("scanner_dispatch_tests", len(dispatches))
+	if len(stops) == 0 || len(dispatches) == 0 {
+		r.Unknown("R11", "xscanner/stop-and-dispatch-tests", p.Pos(scan.Pos()), fmt.Sprintf("the tests were not recognised (scanBody stops on %d, Scan dispatches on %d): written in a form this rule does not read", len(stops), len(dispatches)))
+		return
+	}
+	a, b := strings.Join(core.SortedKeys(stops), ", "), strings.Join(core.SortedKeys(dispatches), ", ")
+	r.Check(a == b, "R11", "xscanner/scanBody-stops-where-Scan-dispatches", p.Pos(scan.Pos()), "both on: "+a, "scanBody ends the body in front of an `@` followed by a character with ["+a+"] but Scan hands over to another reader only for ["+b+"]: for a character in the difference Scan and scanBody pass the same input back and forth without consuming it — template evaluation does not return")
 }
